@@ -32,6 +32,12 @@ func main() {
 			fmt.Sscan(os.Args[4], &only)
 		}
 		os.Exit(e3.Main(os.Args[2], os.Args[3], only))
+	case "e3replay":
+		if len(os.Args) < 3 {
+			fmt.Println("INFRA usage: e3replay <path>")
+			os.Exit(2)
+		}
+		os.Exit(e3.Replay(os.Args[2]))
 	default:
 		fmt.Printf("INFRA unknown sub-command %q\n", os.Args[1])
 		os.Exit(2)
